@@ -48,7 +48,10 @@ func (t *fnTrans) instr(in ssa.Instruction) {
 		t.setVal(in, Val{T: t.term(t.val(in.X))})
 	case *ssa.MakeInterface:
 		xt := in.X.Type()
-		t.defineReg(in, fmt.Sprintf("(mk_iface %s %s)", t.S.tagOf(xt), t.S.box(t.term(t.val(in.X)), xt)))
+		xv := t.term(t.val(in.X))
+		r := t.defineReg(in, fmt.Sprintf("(mk_iface %s %s)", t.S.tagOf(xt), t.S.box(xv, xt)))
+		r.IfaceT, r.IfaceV = xt, xv
+		t.vals[in] = r
 	case *ssa.TypeAssert:
 		t.typeAssert(in)
 	case *ssa.Extract:
